@@ -1,0 +1,15 @@
+//go:build verif
+
+// Verification hook (read-only): compiled only with -tags verif.
+
+package socks5
+
+// VerifParseClientParameters re-exports the unexported argument parser so that it can be
+// compared with its model on arbitrary strings.  The result is converted to a plain map.
+func VerifParseClientParameters(argStr string) (map[string][]string, error) {
+	args, err := parseClientParameters(argStr)
+	if err != nil {
+		return nil, err
+	}
+	return map[string][]string(args), nil
+}
